@@ -550,12 +550,65 @@ _NP_METHODS = {"argmax", "argmin", "min", "max", "mean", "std", "sum",
                "any", "all", "cumsum", "ptp", "var", "nonzero"}
 
 
+def _closed_number(e):
+    """value of an arithmetic expression over numeric literals, else None"""
+    for n in ast.walk(e):
+        if isinstance(n, ast.Constant):
+            if isinstance(n.value, bool) or not isinstance(
+                    n.value, (int, float)):
+                return None
+        elif not isinstance(n, (ast.BinOp, ast.UnaryOp, ast.Add, ast.Sub,
+                                ast.Mult, ast.Div, ast.USub, ast.UAdd,
+                                ast.Pow, ast.Load)):
+            return None
+    try:
+        return eval(compile(ast.fix_missing_locations(
+            ast.Expression(body=copy.deepcopy(e))), "<const>", "eval"),
+            {"__builtins__": {}})
+    except Exception:
+        return None
+
+
+def _closed_truth(t):
+    """truth of a comparison/negation over numeric literals, else None"""
+    if isinstance(t, ast.UnaryOp) and isinstance(t.op, ast.Not):
+        v = _closed_truth(t.operand)
+        return None if v is None else not v
+    if isinstance(t, ast.Compare) and len(t.ops) == 1 and isinstance(
+            t.ops[0], (ast.Lt, ast.LtE, ast.Gt, ast.GtE, ast.Eq, ast.NotEq)):
+        a, b = _closed_number(t.left), _closed_number(t.comparators[0])
+        if a is None or b is None:
+            return None
+        op = t.ops[0]
+        return {ast.Lt: a < b, ast.LtE: a <= b, ast.Gt: a > b,
+                ast.GtE: a >= b, ast.Eq: a == b,
+                ast.NotEq: a != b}[type(op)]
+    return None
+
+
 class Idioms3(ast.NodeTransformer):
     MAX = 12
 
     def visit_Call(self, node):
         self.generic_visit(node)
         fn = norm(node.func)
+        # abs(<literal arithmetic>) -> the non-negative form
+        if fn == "abs" and len(node.args) == 1 and not node.keywords:
+            v = _closed_number(node.args[0])
+            if v is not None:
+                a = node.args[0]
+                if v >= 0:
+                    return a
+                if isinstance(a, ast.UnaryOp) and isinstance(a.op, ast.USub):
+                    return a.operand
+                if isinstance(a, ast.BinOp) and isinstance(
+                        a.left, ast.UnaryOp) and isinstance(
+                        a.left.op, ast.USub) and isinstance(
+                        a.op, (ast.Div, ast.Mult)):
+                    return ast.copy_location(ast.BinOp(
+                        left=a.left.operand, op=a.op, right=a.right), a)
+                return ast.copy_location(ast.UnaryOp(op=ast.USub(),
+                                                     operand=a), a)
         # sep.join(<generator>) -> sep.join([<list comprehension>]) (join
         # consumes its argument completely)
         if isinstance(node.func, ast.Attribute) and node.func.attr == "join" \
@@ -774,6 +827,11 @@ class Idioms3(ast.NodeTransformer):
 
     def visit_If(self, node):
         self.generic_visit(node)
+        # a test over literals (left behind by an unrolled table loop)
+        v = _closed_truth(node.test)
+        if v is not None:
+            return (node.body if v else node.orelse) or [
+                ast.copy_location(ast.Pass(), node)]
         node.test = self._keyset_test(node.test)
         ast.fix_missing_locations(node)
         return node
@@ -2021,6 +2079,90 @@ def generators_to_lists(tree):
     return changed
 
 
+def merge_equal_definitions(fn):
+    """Two locals of the same block that are bound once each to the same
+    call-free expression (`r1 = c - x` ... `r2 = c - x`), over names that
+    are bound once themselves, and that are never edited in place, denote
+    equal values: the later one is replaced by the earlier one."""
+    stores, mutated = {}, set()
+    for n in ast.walk(fn):
+        if isinstance(n, ast.Name) and isinstance(n.ctx, (ast.Store,
+                                                          ast.Del)):
+            stores[n.id] = stores.get(n.id, 0) + 1
+        elif isinstance(n, (ast.Subscript, ast.Attribute)) and isinstance(
+                n.ctx, (ast.Store, ast.Del)) and isinstance(
+                n.value, ast.Name):
+            mutated.add(n.value.id)
+        elif isinstance(n, ast.AugAssign) and isinstance(n.target, ast.Name):
+            mutated.add(n.target.id)
+        elif isinstance(n, ast.keyword) and n.arg in ("out", "output") and \
+                isinstance(n.value, ast.Name):
+            mutated.add(n.value.id)
+        elif isinstance(n, ast.arg):
+            stores[n.arg] = stores.get(n.arg, 0) + 1
+        elif isinstance(n, (ast.Global, ast.Nonlocal, ast.Lambda)) or (
+                isinstance(n, ast.FunctionDef) and n is not fn):
+            return False
+    done = False
+    blk = fn.body
+    first = {}
+    params = {a.arg for a in ast.walk(fn.args) if isinstance(a, ast.arg)}
+    defined = set(params)
+    i = 0
+    while i < len(blk):
+        st = blk[i]
+        # `y = x`, both bound exactly once (x a parameter or an earlier
+        # statement of this block): one object under two names
+        if isinstance(st, ast.Assign) and len(st.targets) == 1 and \
+                isinstance(st.targets[0], ast.Name) and isinstance(
+                st.value, ast.Name) and st.value.id in defined and \
+                stores.get(st.value.id) == 1 and stores.get(
+                    st.targets[0].id) == 1 and st.targets[0].id != \
+                st.value.id and st.targets[0].id not in params:
+            y, x = st.targets[0].id, st.value.id
+            for n in ast.walk(fn):
+                if isinstance(n, ast.Name) and n.id == y:
+                    n.id = x
+            del blk[i]
+            done = True
+            continue
+        if isinstance(st, ast.Assign) and len(st.targets) == 1 and \
+                isinstance(st.targets[0], ast.Name):
+            defined.add(st.targets[0].id)
+        if isinstance(st, ast.Assign) and len(st.targets) == 1 and \
+                isinstance(st.targets[0], ast.Name) and isinstance(
+                st.value, (ast.BinOp, ast.Compare, ast.UnaryOp)) and \
+                not any(isinstance(x, (ast.Call, ast.NamedExpr, ast.Await,
+                                       ast.Yield, ast.Subscript,
+                                       ast.Attribute))
+                        for x in ast.walk(st.value)):
+            nm = st.targets[0].id
+            leaves = {x.id for x in ast.walk(st.value)
+                      if isinstance(x, ast.Name)}
+            if stores.get(nm) == 1 and nm not in mutated and all(
+                    stores.get(x, 0) <= 1 and x not in mutated
+                    for x in leaves):
+                key = norm(st.value)
+                if key in first and first[key] != nm:
+                    keep = first[key]
+                    for x in ast.walk(fn):
+                        if isinstance(x, ast.Name) and x.id == nm:
+                            x.id = keep
+                    del blk[i]
+                    done = True
+                    # later keys may now coincide
+                    first = {norm(s_.value): s_.targets[0].id
+                             for s_ in blk[:i]
+                             if isinstance(s_, ast.Assign) and len(
+                                 s_.targets) == 1 and isinstance(
+                                 s_.targets[0], ast.Name)
+                             and s_.targets[0].id in first.values()}
+                    continue
+                first.setdefault(key, nm)
+        i += 1
+    return done
+
+
 def collapse_aliases(fn):
     """`y = x` where y is bound nowhere else, and x (a local that is not a
     parameter) is not read again in the statements that follow -> x is
@@ -2121,6 +2263,454 @@ def class_constants(tree):
             if isinstance(m, ast.FunctionDef):
                 R().visit(m)
                 done = True
+    return done
+
+
+# ---------------------------------------------------------------------------
+# value objects: a private helper class whose constructor only stores
+# expressions of its arguments and whose instances never leave the function
+# that creates them
+
+def _value_class_spec(cls):
+    """(params, defaults, [(field, init expr)], {member: FunctionDef},
+    {property names}) of an eligible class, else None"""
+    if cls.decorator_list or cls.keywords or any(
+            norm(b) != "object" for b in cls.bases):
+        return None
+    init = None
+    members, props = {}, set()
+    for b in cls.body:
+        if isinstance(b, ast.Expr) and isinstance(b.value, ast.Constant):
+            continue
+        if isinstance(b, ast.Pass):
+            continue
+        if isinstance(b, ast.Assign) and len(b.targets) == 1 and isinstance(
+                b.targets[0], ast.Name) and b.targets[0].id == "__slots__":
+            continue
+        if isinstance(b, ast.FunctionDef):
+            a = b.args
+            if a.vararg or a.kwarg or a.posonlyargs or a.kwonlyargs or \
+                    not a.args or a.args[0].arg != "self":
+                return None
+            if b.name == "__init__":
+                if b.decorator_list:
+                    return None
+                init = b
+                continue
+            if b.name.startswith("__"):
+                return None
+            decs = [norm(d) for d in b.decorator_list]
+            if decs == ["property"]:
+                props.add(b.name)
+            elif decs:
+                return None
+            members[b.name] = b
+            continue
+        return None
+    if init is None:
+        return None
+    fields = []
+    for st in init.body:
+        if isinstance(st, ast.Expr) and isinstance(st.value, ast.Constant):
+            continue
+        if isinstance(st, ast.Assign) and len(st.targets) == 1 and \
+                isinstance(st.targets[0], ast.Attribute) and isinstance(
+                st.targets[0].value, ast.Name) and \
+                st.targets[0].value.id == "self":
+            fields.append((st.targets[0].attr, st.value))
+            continue
+        return None
+    names = [f for f, _ in fields]
+    if not fields or len(set(names)) != len(names):
+        return None
+    # `self` only as self.<field|member> (a field read after its store)
+    for holder, later in [(init, None)] + [(m, names) for m in
+                                           members.values()]:
+        for n in ast.walk(holder):
+            if isinstance(n, ast.Name) and n.id == "self":
+                par = None
+                for p_ in ast.walk(holder):
+                    for c_ in ast.iter_child_nodes(p_):
+                        if c_ is n:
+                            par = p_
+                if not (isinstance(par, ast.Attribute) and (
+                        par.attr in names or par.attr in members)):
+                    return None
+                if holder is not init and not isinstance(par.ctx, ast.Load):
+                    return None
+            if isinstance(n, (ast.Lambda, ast.Yield, ast.YieldFrom,
+                              ast.Global, ast.Nonlocal)) or (
+                    isinstance(n, ast.FunctionDef) and n is not holder):
+                return None
+    params = [a.arg for a in init.args.args[1:]]
+    defaults = dict(zip(params[len(params) - len(init.args.defaults):],
+                        init.args.defaults))
+    return params, defaults, fields, members, props
+
+
+class _SelfToFields(ast.NodeTransformer):
+    """self.<field> -> <prefix><field>; self.<member>(...) / self.<prop> ->
+    call of the synthesised module-level function"""
+
+    def __init__(self, cname, names, members, props, prefix, field_args):
+        self.cname, self.names, self.members = cname, names, members
+        self.props, self.prefix, self.field_args = props, prefix, field_args
+
+    def visit_Call(self, node):
+        if isinstance(node.func, ast.Attribute) and isinstance(
+                node.func.value, ast.Name) and node.func.value.id == "self" \
+                and node.func.attr in self.members and \
+                node.func.attr not in self.props:
+            node.args = [self.visit(a) for a in node.args]
+            for k in node.keywords:
+                k.value = self.visit(k.value)
+            return ast.copy_location(ast.Call(
+                func=ast.Name(id=f"_{self.cname}__{node.func.attr}",
+                              ctx=ast.Load()),
+                args=self.field_args() + node.args,
+                keywords=node.keywords), node)
+        return self.generic_visit(node)
+
+    def visit_Attribute(self, node):
+        if isinstance(node.value, ast.Name) and node.value.id == "self":
+            if node.attr in self.names:
+                return ast.copy_location(ast.Name(
+                    id=self.prefix + node.attr, ctx=node.ctx), node)
+            if node.attr in self.props:
+                return ast.copy_location(ast.Call(
+                    func=ast.Name(id=f"_{self.cname}__{node.attr}",
+                                  ctx=ast.Load()),
+                    args=self.field_args(), keywords=[]), node)
+        return self.generic_visit(node)
+
+
+def inline_value_objects(tree):
+    """`v = _C(a, b)` ... `v.field`, `v.prop`, `v.method(x)`  ->  one local
+    per field and calls of module-level functions synthesised from the
+    members (which the helper inliner then places at the call site), for a
+    private class that only stores expressions of its constructor arguments
+    and an instance that is used through its attributes only."""
+    specs = {}
+    for st in tree.body:
+        if isinstance(st, ast.ClassDef) and (
+                (st.name.startswith("_") and not st.name.startswith("__"))
+                or getattr(st, "_spliced", False)):
+            sp = _value_class_spec(st)
+            if sp:
+                specs[st.name] = (st, sp)
+    if not specs:
+        return False
+    done = False
+    synthesised = set()
+    for fn in [n for n in ast.walk(tree) if isinstance(n, ast.FunctionDef)]:
+        if any(fn in c.body for c, _ in specs.values()):
+            continue
+        binds = {}
+        for n in _walk_own(fn):
+            if isinstance(n, ast.Assign) and len(n.targets) == 1 and \
+                    isinstance(n.targets[0], ast.Name) and isinstance(
+                    n.value, ast.Call) and isinstance(
+                    n.value.func, ast.Name) and n.value.func.id in specs:
+                binds.setdefault(n.targets[0].id, []).append(n)
+        for v, sts in binds.items():
+            if len(sts) != 1:
+                continue
+            st = sts[0]
+            cname = st.value.func.id
+            cls, (params, defaults, fields, members, props) = specs[cname]
+            names = [f for f, _ in fields]
+            refs = [n for n in ast.walk(fn) if isinstance(n, ast.Name)
+                    and n.id == v]
+            attrs = [n for n in ast.walk(fn) if isinstance(n, ast.Attribute)
+                     and isinstance(n.value, ast.Name) and n.value.id == v
+                     and isinstance(n.ctx, ast.Load)
+                     and (n.attr in names or n.attr in members)]
+            if len(refs) != len(attrs) + 1 or any(
+                    a.arg == v for a in ast.walk(fn)
+                    if isinstance(a, ast.arg)):
+                continue
+            call = st.value
+            if any(isinstance(a, ast.Starred) for a in call.args) or any(
+                    k.arg is None for k in call.keywords) or len(
+                    call.args) > len(params):
+                continue
+            bound = dict(zip(params, call.args))
+            bound.update({k.arg: k.value for k in call.keywords})
+            for p_, d_ in defaults.items():
+                bound.setdefault(p_, d_)
+            if set(bound) != set(params):
+                continue
+            # plain method uses must be calls
+            okm = True
+            calls = {}
+            for c in ast.walk(fn):
+                if isinstance(c, ast.Call) and any(c.func is a for a in attrs):
+                    calls[id(c.func)] = c
+            for a in attrs:
+                if a.attr in members and a.attr not in props and \
+                        id(a) not in calls:
+                    okm = False
+            if not okm:
+                continue
+            prefix = f"{v}__"
+            new = []
+            subst = {}
+            for p_ in params:
+                e = bound[p_]
+                if isinstance(e, (ast.Name, ast.Constant)):
+                    subst[p_] = e
+                else:
+                    tmp = f"{prefix}arg_{p_}"
+                    new.append(ast.Assign(
+                        targets=[ast.Name(id=tmp, ctx=ast.Store())], value=e))
+                    subst[p_] = ast.Name(id=tmp, ctx=ast.Load())
+
+            def fargs():
+                return [ast.Name(id=prefix + f, ctx=ast.Load())
+                        for f in names]
+            for f, e in fields:
+                e2 = _SelfToFields(cname, names, members, props, prefix,
+                                   fargs).visit(clone(e))
+                e2 = _SubstNames(subst).visit(e2)
+                new.append(ast.Assign(
+                    targets=[ast.Name(id=prefix + f, ctx=ast.Store())],
+                    value=e2))
+            # uses
+            for a in attrs:
+                if a.attr in names:
+                    _replace_in(fn, a, ast.Name(id=prefix + a.attr,
+                                                ctx=ast.Load()))
+                elif a.attr in props:
+                    synthesised.add((cname, a.attr))
+                    _replace_in(fn, a, ast.Call(
+                        func=ast.Name(id=f"_{cname}__{a.attr}",
+                                      ctx=ast.Load()),
+                        args=fargs(), keywords=[]))
+                else:
+                    c = calls[id(a)]
+                    synthesised.add((cname, a.attr))
+                    c.func = ast.Name(id=f"_{cname}__{a.attr}",
+                                      ctx=ast.Load())
+                    c.args = fargs() + c.args
+            # the construction
+            for par in [fn] + list(_walk_own(fn)):
+                for fld in ("body", "orelse", "finalbody"):
+                    blk = getattr(par, fld, None)
+                    if isinstance(blk, list) and any(x is st for x in blk):
+                        i = [k for k, x in enumerate(blk) if x is st][0]
+                        for x in new:
+                            ast.copy_location(x, st)
+                        blk[i:i + 1] = new
+            ast.fix_missing_locations(fn)
+            done = True
+    if not done:
+        return False
+    # members used by members
+    work = list(synthesised)
+    while work:
+        cname, mname = work.pop()
+        cls, (params, defaults, fields, members, props) = specs[cname]
+        for n in ast.walk(members[mname]):
+            if isinstance(n, ast.Attribute) and isinstance(
+                    n.value, ast.Name) and n.value.id == "self" and \
+                    n.attr in members and (cname, n.attr) not in synthesised:
+                synthesised.add((cname, n.attr))
+                work.append((cname, n.attr))
+    for cname, mname in sorted(synthesised):
+        cls, (params, defaults, fields, members, props) = specs[cname]
+        names = [f for f, _ in fields]
+        m = clone(members[mname])
+        prefix = "self__"
+
+        def fargs():
+            return [ast.Name(id=prefix + f, ctx=ast.Load()) for f in names]
+        body = [_SelfToFields(cname, names, members, props, prefix,
+                              fargs).visit(b) for b in m.body]
+        f2 = ast.FunctionDef(
+            name=f"_{cname}__{mname}",
+            args=ast.arguments(
+                posonlyargs=[], args=[ast.arg(arg=prefix + f) for f in names]
+                + m.args.args[1:], vararg=None, kwonlyargs=[],
+                kw_defaults=[], kwarg=None, defaults=m.args.defaults),
+            body=body, decorator_list=[], returns=None, type_comment=None,
+            type_params=[])
+        ast.copy_location(f2, members[mname])
+        ast.fix_missing_locations(f2)
+        f2._synth = True
+        tree.body.append(f2)
+    # a class that is not referred to any more is not part of the program
+    for cname, (cls, _) in specs.items():
+        if not any(isinstance(n, ast.Name) and n.id == cname
+                   for n in ast.walk(tree)) and not any(
+                isinstance(n, ast.Attribute) and n.attr == cname
+                for n in ast.walk(tree)):
+            tree.body = [b for b in tree.body if b is not cls]
+    return True
+
+
+def _replace_in(root, old, new):
+    ast.copy_location(new, old)
+    for p_ in ast.walk(root):
+        for fname, val in ast.iter_fields(p_):
+            if val is old:
+                setattr(p_, fname, new)
+                return True
+            if isinstance(val, list):
+                for k, x in enumerate(val):
+                    if x is old:
+                        val[k] = new
+                        return True
+    return False
+
+
+def flatten_private_bases(tree):
+    """`class _Base(X): ...` + `class C(_Base): ...` (the private base is
+    defined in this module and nothing else refers to it) -> one class C(X)
+    holding the members of both.  Overriding members make the pair
+    ineligible (a `super().m()` would change its meaning)."""
+    done = False
+    for _ in range(4):
+        classes = {c.name: c for c in tree.body if isinstance(c, ast.ClassDef)}
+        hit = None
+        for c in classes.values():
+            for bi, b in enumerate(c.bases):
+                if not (isinstance(b, ast.Name) and b.id in classes):
+                    continue
+                base = classes[b.id]
+                if not ((base.name.startswith("_")
+                         and not base.name.startswith("__"))
+                        or getattr(base, "_spliced", False)):
+                    continue
+                if base.decorator_list or base.keywords or c.keywords:
+                    continue
+                refs = [n for n in ast.walk(tree) if isinstance(n, ast.Name)
+                        and n.id == base.name]
+                inside = [n for n in ast.walk(base) if isinstance(
+                    n, ast.Name) and n.id == base.name]
+                # the base-list entry, plus uses inside the base itself
+                if len(refs) != 1 + len(inside):
+                    continue
+                if any(isinstance(n, ast.Attribute) and n.attr == base.name
+                       for n in ast.walk(tree)):
+                    continue
+
+                def names_of(cl):
+                    out = set()
+                    for m in cl.body:
+                        if isinstance(m, (ast.FunctionDef, ast.ClassDef)):
+                            out.add(m.name)
+                        elif isinstance(m, ast.Assign):
+                            for t in m.targets:
+                                if isinstance(t, ast.Name):
+                                    out.add(t.id)
+                        elif isinstance(m, ast.AnnAssign) and isinstance(
+                                m.target, ast.Name):
+                            out.add(m.target.id)
+                    return out
+                common = (names_of(base) & names_of(c)) - {"__slots__",
+                                                            "__doc__"}
+                if common:
+                    continue
+                hit = (c, bi, base)
+                break
+            if hit:
+                break
+        if not hit:
+            break
+        c, bi, base = hit
+        moved = []
+        for m in base.body:
+            if isinstance(m, ast.Expr) and isinstance(m.value, ast.Constant):
+                continue
+            if isinstance(m, ast.Assign) and any(
+                    isinstance(t, ast.Name) and t.id == "__slots__"
+                    for t in m.targets):
+                continue
+            if isinstance(m, ast.Pass):
+                continue
+            for n in ast.walk(m):
+                if isinstance(n, ast.Name) and n.id == base.name:
+                    n.id = c.name
+            moved.append(m)
+        doc = [m for m in c.body[:1] if isinstance(m, ast.Expr)
+               and isinstance(m.value, ast.Constant)]
+        c.body = doc + moved + c.body[len(doc):]
+        newb = [x for x in base.bases if norm(x) != "object"]
+        c.bases = c.bases[:bi] + newb + c.bases[bi + 1:]
+        tree.body = [x for x in tree.body if x is not base]
+        done = True
+    if done:
+        ast.fix_missing_locations(tree)
+    return done
+
+
+def inline_private_properties(tree):
+    """A private read-only property whose body is one returned expression
+    over `self` (`_gcf_k -> self.fp["gcf_k"]`) is replaced by that expression
+    where the class reads it through `self`."""
+    done = False
+    for cls in [c for c in tree.body if isinstance(c, ast.ClassDef)]:
+        props = {}
+        setters = set()
+        for m in cls.body:
+            if not isinstance(m, ast.FunctionDef):
+                continue
+            decs = [norm(d) for d in m.decorator_list]
+            if any(d.endswith((".setter", ".deleter")) for d in decs):
+                setters.add(m.name)
+            if decs == ["property"] and m.name.startswith("_") and \
+                    not m.name.startswith("__") and len(m.args.args) == 1:
+                body = [b for b in m.body if not (isinstance(
+                    b, ast.Expr) and isinstance(b.value, ast.Constant))]
+                if len(body) == 1 and isinstance(body[0], ast.Return) and \
+                        body[0].value is not None and not any(
+                            isinstance(x, (ast.Lambda, ast.Yield, ast.Await,
+                                           ast.NamedExpr))
+                            for x in ast.walk(body[0].value)):
+                    props[m.name] = (m, body[0].value, m.args.args[0].arg)
+        for name in list(props):
+            if name in setters:
+                del props[name]
+        if not props:
+            continue
+        for _ in range(3):
+            changed = False
+            for m in cls.body:
+                if not isinstance(m, ast.FunctionDef) or not m.args.args:
+                    continue
+                me = m.args.args[0].arg
+                for par in ast.walk(m):
+                    for fname, val in ast.iter_fields(par):
+                        items = val if isinstance(val, list) else [val]
+                        for k, x in enumerate(items):
+                            if isinstance(x, ast.Attribute) and isinstance(
+                                    x.ctx, ast.Load) and isinstance(
+                                    x.value, ast.Name) and x.value.id == me \
+                                    and x.attr in props and props[
+                                        x.attr][0] is not m:
+                                pm, expr, pself = props[x.attr]
+                                e2 = clone(expr)
+                                for n in ast.walk(e2):
+                                    if isinstance(n, ast.Name) and \
+                                            n.id == pself:
+                                        n.id = me
+                                ast.copy_location(e2, x)
+                                if isinstance(val, list):
+                                    val[k] = e2
+                                else:
+                                    setattr(par, fname, e2)
+                                changed = True
+            if not changed:
+                break
+            done = True
+        # properties nobody reads any more
+        for name, (pm, _, _) in props.items():
+            if not any(isinstance(n, ast.Attribute) and n.attr == name
+                       for n in ast.walk(tree)):
+                cls.body = [b for b in cls.body if b is not pm] or [
+                    ast.Pass()]
+    if done:
+        ast.fix_missing_locations(tree)
     return done
 
 
